@@ -189,6 +189,7 @@ impl Oplog {
                 }
             }
         }
+        remove_keys_map_file();
         // The flag goes last: until every op-log file is gone a restart must still see it invalid
         remove_invalidate_oplog_file();
     }
@@ -266,6 +267,14 @@ pub fn load_keys_map_from_disk() -> HashMap<String, u64> {
         initial_db = bincode::deserialize_from(&mut file).unwrap();
     }
     return initial_db;
+}
+
+fn remove_keys_map_file() {
+    let file_name = get_keys_map_file_name();
+    log::debug!("Will delete {}", file_name);
+    if Path::new(&file_name).exists() {
+        fs::remove_file(file_name).unwrap();
+    }
 }
 
 fn remove_invalidate_oplog_file() {
